@@ -129,6 +129,7 @@ message Rule {
   optional Limits limits = 2;
   repeated string tags = 3;
   repeated Limits rules = 4;
+  repeated double weights = 5;
 }
 
 extend google.protobuf.FileOptions {
@@ -267,7 +268,10 @@ func render(w source, importsWritten, optionsWritten []string) string {
 			case "empty":
 				b.T("tags", ":", "[", "]").NL()
 			case "messages":
-				b.T("rules", ":", "[").S("lit_array_elem").T("{", "min", ":", "1", "}", ",").S("lit_array_after_comma").T("{", "min", ":", "2", "}").S("lit_array_close").T("]").NL()
+				b.T("rules", ":", "[").S("lit_array_elem").T("{").S("lit_array_elem_open").T("min", ":", "1", "}", ",").S("lit_array_after_comma").T("{", "min", ":", "2", "}").S("lit_array_close").T("]").NL()
+			case "floats":
+				// signed floats, the last one negative
+				b.T("weights", ":", "[").S("lit_array_elem").T("1.5", ",").S("lit_array_after_comma").T("-0.25", ",", "-2.5").S("lit_array_close").T("]").NL()
 			case "angle_messages":
 				b.T("rules", ":", "[").S("lit_array_elem").T("<", "min", ":", "1", ">", ",").S("lit_array_after_comma").T("<", "min", ":", "2", ">").S("lit_array_close").T("]").NL()
 			}
